@@ -168,8 +168,8 @@ def run_one(tape, tier, prop):
     has_m = any(s == "M" for s, _ in spec["base"])
     only_m = all(s == "M" for s, _ in spec["base"])
     flags = {"skip_brute": t.chance(1, 4), "skip_case": t.chance(1, 4)}
-    if flags["skip_brute"] and (not has_m or only_m):
-        flags["skip_brute"] = False          # C14's subject
+    if flags["skip_brute"] and only_m:
+        flags["skip_brute"] = False          # empty run
     mode = t.choice(["true_prob_order", "true_prob_order", "random_walk", "honeywords"])
     if mode != "true_prob_order":
         worlds.normalise(t, spec)        # honeyword modes walk cumulative sums: lists must be distributions
